@@ -4,6 +4,7 @@ import Driver.Hashes
 import Driver.Bg4
 import Driver.Shard
 import Driver.InterpSearch
+import Driver.Dedup
 open Xet.Drv
 
 def dispatch (blob : Blob) (line : String) : String :=
@@ -14,6 +15,7 @@ def dispatch (blob : Blob) (line : String) : String :=
     if cmd == "chunker" then handleChunker blob rest
     else if cmd.startsWith "hash" || cmd.startsWith "hex." then handleHash blob cmd rest
     else if cmd.startsWith "shard." then handleShard blob cmd rest
+    else if cmd.startsWith "dedup." then handleDedup blob cmd rest
     else if cmd.startsWith "search." then handleSearch blob cmd rest
     else if cmd.startsWith "bg4." then handleBg4 blob cmd rest
     else "bad-op"
